@@ -52,7 +52,20 @@ FAMILY = [
     ("semgrep:python/harden-pyyaml", YAML_SRC, "yaml.load(d)", "semgrep", None),
     ("defectdojo:python/avoid-insecure-deserialization", YAML_SRC, "yaml.load(d)", "defectdojo", None),
 ]
+NAN_SRC = "import numpy as np\na = 1\nr1 = a == np.nan\nr2 = a == np.nan\nr3 = a == np.nan\n"
+IDENT_SRC = "x = 1\n\nr1 = x is [1]\nr2 = x is [1]\nr3 = x is [1]\n"
+INVERT_SRC = "a, b = 1, 2\n\nr1 = not a == b\nr2 = not a == b\nr3 = not a == b\n"
+ISCLOSE_SRC = "import math\na = 1.0\nr1 = math.isclose(a, 0)\nr2 = math.isclose(a, 0)\nr3 = math.isclose(a, 0)\n"
+SHELL_SRC = "import subprocess\ncmd = 'ls'\nsubprocess.run(cmd, shell=True)\nsubprocess.run(cmd, shell=True)\nsubprocess.run(cmd, shell=True)\n"
+# thorough tier.  (literal-or-new-object-identity, fix-math-isclose and subprocess-shell-false match a different node
+# than the whole expression - the operator / an argument - so the generic 'finding placed on the site' reference does
+# not describe them; they are left out rather than given a guessed reference.)
+MORE = [
+    ("sonar:python/numpy-nan-equality", NAN_SRC, "a == np.nan", "sonar", None),
+    ("sonar:python/invert-boolean-check", INVERT_SRC, "not a == b", "sonar", None),
+]
 FAMILY = [f for f in FAMILY if f[0] in _CM]
+MORE = [f for f in MORE if f[0] in _CM]
 
 
 def site_positions(src, marker):
@@ -62,7 +75,7 @@ def site_positions(src, marker):
     pos = w.resolve(PositionProvider)
     out = {}
     for node, p in pos.items():
-        if isinstance(node, cst.Call) and w.module.code_for_node(node) == marker:
+        if isinstance(node, (cst.Call, cst.Comparison, cst.UnaryOperation)) and w.module.code_for_node(node) == marker:
             out[p.start.line] = (p.start.line, p.start.column, p.end.line, p.end.column)
     return out
 
@@ -134,5 +147,5 @@ def explore(entry):
         return None
 
     cons = [lambda z: z["le"] >= z["ls"]] if kind != "defectdojo" else []
-    done, runs, queries, fix = symint.explore(space, run, constraints=cons)
+    done, runs, queries, fix = symint.explore(space, run, max_rounds=60, constraints=cons)
     return done, space.atoms, runs, queries, fix, sites
